@@ -219,6 +219,9 @@ def mutator_obligations(c):
                 ob.append(('C05.reason_known', z3.Implies(is_err, known)))
             for (n_, f_) in specs.arena_equal(pre, post, 'C05.err_atomic'):
                 ob.append((n_, z3.Implies(is_err, f_)))
+            # C12: an insert that involves a removed node is refused WITHOUT changing the arena
+            for (n_, f_) in specs.arena_equal(pre, post, 'C12.refusal_leaves_arena_unchanged'):
+                ob.append((n_, z3.Implies(z3.And(is_err, removed_arg), f_)))
             for (n_, f_) in specs.spec_insert(b, pre, post, t, x) + specs.frame_identity(pre, post) + specs.freelist_frame(pre, post):
                 ob.append((n_, z3.Implies(is_ok, f_)))
             if op in UNCHECKED: ob.append(('C05.unchecked_result', F_))
@@ -230,6 +233,8 @@ def mutator_obligations(c):
             if op in UNCHECKED:
                 ob.append(('C05.unchecked_panic_iff_impossible', imp))
                 ob += specs.arena_equal(pre, post, 'C05.panic_atomic')
+                for (n_, f_) in specs.arena_equal(pre, post, 'C12.refusal_leaves_arena_unchanged'):
+                    ob.append((n_, z3.Implies(removed_arg, f_)))
     elif op == 'detach':
         if kind == 'ok':
             ob += specs.spec_detach(pre, post, x) + specs.frame_identity(pre, post) + specs.freelist_frame(pre, post)
